@@ -126,7 +126,6 @@ class Interp:
         self.scope_tasks = {}  # scope name -> [task names spawned into it]
         self.samples = []     # per activation boundary: {task: (status, done)} (if sampling is on)
         o = prog.get('objs', {})
-        self.flags = [Flag() for _ in range(o.get('flags', 0))]
         self.tracked = [Tracked(v) for v in o.get('tracked', [])]
         if shared is None or not o.get('shared'):
             shared = {}          # (with prog['objs']['shared'] the objects outlive this simulation: a model's "static" objects)
@@ -135,6 +134,7 @@ class Interp:
             if key not in shared:
                 shared[key] = make()
             return shared[key]
+        self.flags = [once(('flag', i), Flag) for i in range(o.get('flags', 0))]
         self.locks = [once(('lock', i), Lock) for i in range(o.get('locks', 0))]
         self.queues = [once(('queue', i), Queue) for i in range(o.get('queues', 0))]
         self.channels = [once(('channel', i), Channel) for i in range(o.get('channels', 0))]
